@@ -708,7 +708,8 @@ pub fn gen_params(r: &mut Sm, spec: &Spec, kind: PKind, extreme: bool) -> PParam
         kind,
         max_distance: step,
         goal_bias: if kind == PKind::Prm { 0.0 } else { bias },
-        search_radius: step * rad_mult,
+        // (now and then exactly 0: rewiring switched off)
+        search_radius: if kind == PKind::Star && r.bool(0.04) { 0.0 } else { step * rad_mult },
         connection_radius: if extreme { step * rad_mult } else { r.log_range(0.1, 0.6) * diam },
         seed: Some(r.next_u64() >> 1),
     }
